@@ -16,7 +16,9 @@ RULE = (
     "the source output (logged by wrapping Output.get_data) and nearest-publication value; additionally the "
     "time the driver's dependency walk (finam.schedule._find_dependencies) assumes for the same link must "
     "equal the time actually requested. non-trivial = >=2 delay adapters in the chain, or a clamped request "
-    "followed by an unclamped one. distinct = canonical JSON."
+    "followed by an unclamped one. Part calendar_delays: relativedelta delays (months/years/days) on daily "
+    "series from arbitrary start dates incl. month ends, judged by max(t - delay, start) in calendar "
+    "arithmetic. distinct = canonical JSON."
 )
 ASSUMPTIONS = [
     "start time of a delay adapter = time of the exchanged metadata = first publication time",
@@ -215,10 +217,105 @@ def check_composition(spec, ctx):
         return
 
 
+# ------------------------------------------------------------------ calendar delays (relativedelta)
+def check_calendar(case, ctx):
+    """daily source >> [Scale] >> DelayFixed/DelayToPull with a calendar delay (months/years/days, accepted by the
+    constructors through is_timedelta) >> Input. Calendar arithmetic is not invertible (31 Jan + 1 month = 28 Feb),
+    so the only sound oracle is the statement itself: the source is asked for max(t - delay, start)."""
+    from datetime import datetime
+
+    import finam as fm
+    from dateutil.relativedelta import relativedelta
+
+    start = datetime(*case["start"])
+    delay = relativedelta(**case["delay"])
+    if case["kind"] == "dfix":
+        ad = fm.adapters.DelayFixed(delay)
+    else:
+        ad = fm.adapters.DelayToPull(steps=case["steps"], additional_delay=delay)
+    out = fm.Output(name="o", info=fm.Info(time=start, grid=fm.NoGrid(), units=""))
+    inp = fm.Input(name="i", info=fm.Info(time=start, grid=fm.NoGrid(), units=""))
+    x = out
+    if case["scale"]:
+        x = x >> fm.adapters.Scale(1.0)
+    x >> ad >> inp
+    inp.ping()
+    inp.exchange_info()
+    log = []
+    orig = out.get_data
+
+    def spy(time, target):
+        log.append(time)
+        return orig(time, target)
+
+    out.get_data = spy
+    n = case["npubs"]
+    for k in range(n + 1):
+        out.push_data(float(k), start + timedelta(days=k))
+    t = start
+    reqs = [start]
+    clamped = unclamped = False
+    for inc in case["reqs"]:
+        t = t + timedelta(days=inc)
+        if t > start + timedelta(days=n):
+            break
+        if case["kind"] == "dfix":
+            base = t
+        else:
+            seq = reqs[-case["steps"]:] if len(reqs) > 0 else [start]
+            base = seq[0]
+        want = base - delay
+        if want < start:
+            want, clamped = start, True
+        else:
+            unclamped = True
+        try:
+            r = inp.pull_data(t)
+        except fm.FinamTimeError as e:
+            ctx.violation("calendar-delay-refused", f"{case['kind']} delay {case['delay']} start {start.date()}: request {t.date()} (source time {want.date()}) refused: {str(e)[:120]}")
+            return
+        reqs.append(t)
+        if not log or log[-1] != want:
+            ctx.violation("calendar-delay-request", f"{case['kind']} delay {case['delay']} start {start.date()}: request {t.date()} reached the source as {log[-1] if log else None}, expected {want}")
+            return
+        got = float(np.ravel(hs.magnitude(r))[0])
+        exp = float((want - start).days)
+        if got != exp:
+            ctx.violation("calendar-delay-value", f"{case['kind']} delay {case['delay']} start {start.date()}: request {t.date()} -> publication of day {got}, expected day {exp} ({want.date()})")
+            return
+    out.finalize()
+    ctx.event(f"kind={case['kind']}")
+    if start.day >= 29:
+        ctx.event("start-at-month-end")
+    ctx.nontrivial(clamped and unclamped)
+
+
+@st.composite
+def calendar_case(draw):
+    y = draw(st.sampled_from([2001, 2003, 2004]))
+    m = draw(st.integers(1, 12))
+    dmax = [31, 29 if y == 2004 else 28, 31, 30, 31, 30, 31, 31, 30, 31, 30, 31][m - 1]
+    d = draw(st.one_of(st.integers(1, dmax), st.integers(max(1, dmax - 3), dmax)))
+    delay = {}
+    if draw(st.integers(0, 3)) > 0:
+        delay["months"] = draw(st.integers(1, 3))
+    if draw(st.integers(0, 2)) == 0:
+        delay["days"] = draw(st.integers(0, 40))
+    if draw(st.integers(0, 5)) == 0:
+        delay["years"] = 1
+    if not delay:
+        delay["days"] = draw(st.integers(0, 40))
+    kind = draw(st.sampled_from(["dfix", "dfix", "dpull"]))
+    npubs = 470 if "years" in delay else 140
+    reqs = draw(st.lists(st.sampled_from([0, 1, 1, 1, 2, 3]), min_size=npubs // 2, max_size=npubs))
+    return {"start": [y, m, d], "delay": delay, "kind": kind, "steps": draw(st.integers(1, 3)), "scale": draw(st.booleans()), "npubs": npubs, "reqs": reqs}
+
+
 def parts():
     from .. import h_sched_gen as G
 
     return [
         Part("chains", check, strategy=case_st(), budget={"quick": 2500, "thorough": 60000}),
         Part("compositions", check_composition, strategy=G.dag_spec(), budget={"quick": 800, "thorough": 40000}, fuzz={"thorough": 5000}),
+        Part("calendar_delays", check_calendar, strategy=calendar_case(), budget={"quick": 250, "thorough": 8000}, shrink_budget=150),
     ]
